@@ -628,6 +628,11 @@ def c11_12(ctx):
                     return BAD_TRUE if isinstance(t.ops[0], ast.NotEq) else BAD_FALSE
             return None
         gs = find_guards(mod, fn, hmatch)
+        # the single-key comparison written as a loop over the named pubkeys (`for named_pub in self.named_pubs.values(): if <hash160 differs>: raise`):
+        # every key that is named passes the comparison; the path around the loop names no key
+        for lp in cfg.loops.values():
+            if isinstance(lp.stmt, ast.For) and "self.named_pubs" in ast.unparse(lp.stmt.iter) and any(g.node.id in lp.body for g in gs):
+                heads.add(lp.head)
         # p2wpkh arms look at the key only when exactly one is named: `len(named_pubs) == 1`; zero keys need no tie
         rets = [n.id for n in cfg.returns()]
         for attr in ("redeem_script", "witness_script"):
